@@ -54,6 +54,40 @@ func TestC01FixedPointStartContext(t *testing.T) {
 	expect(t, "C01-fixedpoint-start-context", out, err, `<a href=">" onmouseover=alert(1) `)
 }
 
+func TestC01StaleOutputContext(t *testing.T) {
+	out, err := render(t, `{{define "h"}}<a href="{{end}}{{template "h" .}}x">a</a>{{template "h" .}}{{.}}">b</a>`, "javascript:alert(1)")
+	expect(t, "C01-stale-output-context", out, err, `href="javascript:alert(1)"`)
+}
+
+func TestC08CallOfUnusableTemplate(t *testing.T) {
+	tmpl, err := template.New("t").ParseFromTrustedTemplate(tuc.TrustedTemplateFromStringKnownToSatisfyTypeContract(
+		`{{define "bad"}}<a href="{{.}}{{end}}{{define "c"}}x{{template "bad" .}}y">{{end}}`))
+	if err != nil {
+		t.Skip(err)
+	}
+	var b bytes.Buffer
+	if err := tmpl.ExecuteTemplate(&b, "bad", "d"); err == nil {
+		t.Skip("bad is accepted now")
+	}
+	panicked := false
+	func() {
+		defer func() { panicked = recover() != nil }()
+		err = tmpl.ExecuteTemplate(&b, "c", "d")
+	}()
+	if !panicked {
+		t.Skipf("C08-call-of-unusable-template: no longer reproduces (err=%v)", err)
+	}
+	t.Logf("C08-call-of-unusable-template reproduces: ExecuteTemplate panicked")
+}
+
+func TestC01EndTagCR(t *testing.T) {
+	// a browser normalises CR to LF, so "</script\r>" ends the script element; the escaper
+	// stayed in the script body and emitted the (trusted) script where the browser parses HTML
+	sc := safehtml.ScriptFromConstant("if(a<b&&c>d){}")
+	out, err := render(t, "<script>x</script\r>{{.}}</script>", sc)
+	expect(t, "C01-endtag-cr", out, err, "</script\r>if(a<b&&c>d){}</script>")
+}
+
 func TestC04LinkRelGluedToken(t *testing.T) {
 	out, err := render(t, `<link rel="{{if .C}}x{{end}}icon stylesheet" href="{{.U}}">`, map[string]interface{}{"C": true, "U": "//evil.example/x.css"})
 	expect(t, "C04-linkrel-glued-token", out, err, `rel="xicon stylesheet" href="//evil.example/x.css"`)
